@@ -7,7 +7,7 @@ From Coq Require Import List NArith ZArith Lia Bool Arith.
 From Coq Require Import ZifyN ZifyNat ZifyBool.
 From TarsV Require Import Gen.Consts Base.Hex Codec.Wire Codec.WireProofs Codec.Skip Codec.SkipProofs Codec.Prim
   Codec.PrimProofs Codec.GenCodec Codec.Corr Codec.GenProofs Codec.RoundTrip Codec.RoundTripProofs Codec.TotalProofs
-  Codec.FloatWiden.
+  Codec.FloatWiden Codec.NormProofs Codec.CanonProofs.
 Import ListNotations.
 Ltac Zify.zify_post_hook ::= Z.div_mod_to_equations.
 Open Scope N_scope.
@@ -546,3 +546,20 @@ Proof.
 Qed.
 End TypedDec2.
 Print Assumptions decode_typed.
+
+(* C03, canonicity made exact: on an accepted input (everything consumed), decode-then-encode gives the input back
+   exactly when the input is an image of the encoder on a well-typed value *)
+Theorem reencode_exact e k n sid bs v :
+  wf_schema k e -> defaults_typed e -> arrs_ok e -> (S k <= 64)%nat ->
+  tfin n e (TStruct sid) = true -> (tneed n e (TStruct sid) + k <= 64)%nat ->
+  bytes_ok bs -> lenok bs -> decode e sid bs = DOk v [] ->
+  (encode e sid v = bs <-> exists vs, has_type e (TStruct sid) (VStruct vs) /\ bs = encode e sid (VStruct vs)).
+Proof.
+  intros Hwf Hdt Harr Hk Hfin Hn Hbs Hl E. split.
+  - intros Eb. destruct (decode_typed e k Hwf Hdt Harr n sid _ bs v [] Hk Hfin Hn Hbs Hl E) as [Hv _].
+    inversion Hv as [? ? Hsc| | | | |? vs Hvs]; subst; [discriminate|]. exists vs. split; [exact Hv|now symmetry].
+  - intros (vs & Hty & ->). pose proof (roundtrip_struct_static e k n sid vs Hwf Hk Hfin Hn Hty) as D.
+    rewrite D in E. assert (v = norm_struct e sid (VStruct vs)) by (inversion E; reflexivity). subst v.
+    now apply encode_norm.
+Qed.
+Print Assumptions reencode_exact.
